@@ -30,6 +30,7 @@ type Options struct {
 	Cache    bool // happens-before state caching
 	Stop     func() bool
 	MaxSteps int
+	Delay    bool // delay bounding instead of preemption bounding (see RunConfig.Delay)
 }
 
 type Stats struct {
@@ -74,7 +75,7 @@ func Explore(opt Options, body func(s *Sched), check func(x *Exec) bool) Stats {
 			}
 			prefix := stack[len(stack)-1]
 			stack = stack[:len(stack)-1]
-			x := Run(RunConfig{Prefix: prefix, Visit: visit, MaxSteps: opt.MaxSteps}, body)
+			x := Run(RunConfig{Prefix: prefix, Visit: visit, MaxSteps: opt.MaxSteps, Delay: opt.Delay}, body)
 			st.Executions++
 			if len(x.Points) > st.MaxPoints {
 				st.MaxPoints = len(x.Points)
@@ -91,20 +92,21 @@ func Explore(opt Options, body func(s *Sched), check func(x *Exec) bool) Stats {
 			pre := 0
 			for i, p := range x.Points {
 				if i >= len(prefix) {
-					cost := pre
-					if p.RunEnabled && !p.Data {
-						cost++
-					}
-					if b < 0 || cost <= b {
-						for alt := p.N - 1; alt >= 1; alt-- {
-							np := make([]int, i+1)
-							copy(np, x.Choices[:i])
-							np[i] = alt
-							stack = append(stack, np)
+					for alt := p.N - 1; alt >= 1; alt-- {
+						cost := pre
+						if alt >= p.FirstCostly {
+							cost++
 						}
+						if b >= 0 && cost > b {
+							continue
+						}
+						np := make([]int, i+1)
+						copy(np, x.Choices[:i])
+						np[i] = alt
+						stack = append(stack, np)
 					}
 				}
-				if p.RunEnabled && !p.Data && p.Chosen != 0 {
+				if p.Chosen >= p.FirstCostly {
 					pre++
 				}
 			}
